@@ -23,6 +23,13 @@ class MachineryError(Exception):
 # ------------------------------------------------------------------------------------------------
 # value parser
 # ------------------------------------------------------------------------------------------------
+class HDict(dict):
+    """hashable dict: TLA+ records / functions may be elements of sets"""
+
+    def __hash__(self):
+        return hash(frozenset(self.items()))
+
+
 class _P:
     def __init__(self, s):
         self.s = s
@@ -68,7 +75,7 @@ class _P:
             v = frozenset(self.seq("}"))
         elif c == "[":
             self.i += 1
-            v = {}
+            v = HDict()
             self.ws()
             if self.peek() == "]":
                 self.i += 1
@@ -88,7 +95,7 @@ class _P:
                     break
         elif c == "(":
             self.i += 1
-            v = {}
+            v = HDict()
             while True:
                 k = self.value()
                 self.expect(":>")
